@@ -212,3 +212,89 @@ M('C10', 'proof-unverified', PRV,
                 .verify()
                 .map_err(CardanoDatabaseVerificationError::MerkleProofVerification)?;
 """, '', ['MKProof::verify'], 'proof not verified')
+
+# ---------------------------------------------------------------- C14 / C15
+CSF = 'mithril-aggregator/src/services/certifier/certifier_service.rs'
+M('C14', 'self-verification-ignored', CSF,
+  """                    "CertificateVerifier can not verify certificate with hash: '{}'",
+                    certificate.hash
+                )
+            })?;""", """                    "CertificateVerifier can not verify certificate with hash: '{}'",
+                    certificate.hash
+                )
+            }).ok();""", ['verify_certificate'], 'unverifiable certificate stored')
+M('C14', 'certified-flag-ignored', CSF,
+  """            return Err(CertifierServiceError::AlreadyCertified(signed_entity_type.clone()).into());
+        }
+
+        if open_message.is_expired {
+            warn!(
+                self.logger,
+                "create_certificate: open message""", """        }
+
+        if open_message.is_expired {
+            warn!(
+                self.logger,
+                "create_certificate: open message""", ['is_certified'], 'already certified open message sealed again')
+M('C14', 'avk-from-next-epoch', CSF,
+  'epoch_service.current_aggregate_verification_key()?.clone(),', 'epoch_service.next_aggregate_verification_key()?.clone(),', ['aggregate_verification_key'], 'wrong AVK in the certificate')
+M('C14', 'ready-without-genesis', 'mithril-aggregator/src/runtime/state_machine.rs',
+  '        } else if last_genesis_certificate_epoch.is_none() {', '        } else if last_genesis_certificate_epoch.is_none() && self.config.is_follower {', ['genesis'], 'leader becomes Ready without genesis')
+M('C15', 'open-message-marked-before-insert', CSF,
+  """        let certificate = self
+            .certificate_repository
+            .create_certificate(certificate)
+            .await
+            .with_context(|| {format!(
+                "Certifier can not create certificate for signed entity type: '{signed_entity_type}'")
+            })?;
+
+        let mut open_message_certified: OpenMessageRecord = open_message_record.into();
+        open_message_certified.is_certified = true;
+        self.open_message_repository
+            .update_open_message(&open_message_certified)
+            .await
+            .with_context(|| format!("Certifier can not update open message for signed entity type: '{signed_entity_type}'"))
+            ?;
+""", """        let mut open_message_certified: OpenMessageRecord = open_message_record.into();
+        open_message_certified.is_certified = true;
+        self.open_message_repository
+            .update_open_message(&open_message_certified)
+            .await
+            .with_context(|| format!("Certifier can not update open message for signed entity type: '{signed_entity_type}'"))
+            ?;
+
+        let certificate = self
+            .certificate_repository
+            .create_certificate(certificate)
+            .await
+            .with_context(|| {format!(
+                "Certifier can not create certificate for signed entity type: '{signed_entity_type}'")
+            })?;
+""", ['update_open_message'], 'a crash between the two leaves a certified open message without certificate')
+M('C15', 'lock-not-released-on-error', 'mithril-aggregator/src/services/signed_entity.rs',
+  """            .await;
+            service
+                .signed_entity_type_lock
+                .release(signed_entity_type.clone())
+                .await;
+
+            result.with_context""", """            .await;
+            if result.is_ok() {
+                service
+                    .signed_entity_type_lock
+                    .release(signed_entity_type.clone())
+                    .await;
+            }
+
+            result.with_context""", ['lock'], 'lock leaked when the task panics')
+M('C15', 'artifact-error-keeps-state', 'mithril-aggregator/src/runtime/state_machine.rs',
+  """            .map_err(|e| RuntimeError::ReInit {
+                message: "transiting SIGNING → READY: failed to create artifact. Retrying…"
+                    .to_string(),
+                nested_error: Some(e),
+            })?;""", """            .map_err(|e| RuntimeError::KeepState {
+                message: "transiting SIGNING → READY: failed to create artifact. Retrying…"
+                    .to_string(),
+                nested_error: Some(e),
+            })?;""", ['ReInit'], 'artifact failure leaves the machine in SIGNING')
